@@ -703,6 +703,10 @@ func (c *CharSet) addCategory(categoryName string, negate, caseInsensitive bool)
 // Adds to the class any case-equivalence versions of characters already
 // in the class. Used for case-insensitivity.
 func (c *CharSet) addCaseEquivalences() {
+	// the subtracted class is matched with the same case rules
+	if c.sub != nil {
+		c.sub.addCaseEquivalences()
+	}
 	// we already have all case equiv
 	if c.anything {
 		return
